@@ -94,7 +94,7 @@ RECURSIVE WF(_)
 WF(v) == IF IsRec(v)
          THEN /\ \A i \in 1..Len(v.attrs) : WF(v.attrs[i].v)
               /\ \A i \in 1..Len(v.items) : WF(v.items[i].v) /\ (v.items[i].slot => WF(v.items[i].key))
-         ELSE v.k \in {"x", "f", "b", "s", "t", "r", "d"} \cup IntClasses
+         ELSE v.k \in {"x", "f", "b", "s", "t", "r", "d", "S", "D"} \cup IntClasses
 WellFormed == WF(doc)
 
 \* instances of the same type with the same rendering: no reader can tell them apart
@@ -130,6 +130,6 @@ WrongTagRejected == (ty # "" /\ hist = <<>> /\ sess = <<>> /\ Tagged(ty)) => \A 
 \* printed once per distinct (type, document)
 Emit == ty # "" =>
           PrintT(<<"DOC", ToJson([ty |-> ty, ops |-> hist, doc |-> doc, inst |-> inst, exp |-> ReadKey(ty, doc),
-                                  clash |-> (hist = <<>> /\ RenderClash),
+                                  clash |-> (hist = <<>> /\ RenderClash), marker |-> BodyMarker(doc),
                                   sess |-> sess, exps |-> [i \in 1..Len(sess) |-> ReadKey(ty, sess[i])]])>>)
 =============================================================================
